@@ -497,6 +497,8 @@ pub struct Run {
     pub replay_case: Option<Value>,
     /// in replay mode: the signature recorded with the case
     pub replay_sig: Option<String>,
+    /// wall time spent before this process started (builds and per-configuration runs of C20)
+    pub extra_wall_s: Mutex<f64>,
 }
 
 impl Run {
@@ -519,6 +521,7 @@ impl Run {
         let run = Arc::new(Run {
             replay_case,
             replay_sig,
+            extra_wall_s: Mutex::new(0.0),
             cfg,
             start: Instant::now(),
             distinct,
@@ -757,7 +760,7 @@ impl Run {
         for (k, v) in self.extras.lock().unwrap().iter() {
             coverage.insert(k.clone(), v.clone());
         }
-        let wall = self.start.elapsed().as_secs_f64();
+        let wall = self.start.elapsed().as_secs_f64() + *self.extra_wall_s.lock().unwrap();
         let verdict = if new_v > 0 {
             "violated"
         } else if !inconclusive.is_empty() {
